@@ -102,6 +102,15 @@ pub struct ThermalBridge {
     pub sisdim: String,
 }
 
+/// Convierte un campo numérico (con coma o punto decimal). Los valores no finitos (nan, inf) son un error
+fn parse_num(field: &str) -> Result<f32, Error> {
+    let num: f32 = field.trim().replace(',', ".").parse()?;
+    if !num.is_finite() {
+        bail!("Valor numérico no finito '{}'", field)
+    }
+    Ok(num)
+}
+
 // Lee estructura de datos desde cadena con formato de archivo KyGananciasSolares.txt
 pub fn parse(data: &str) -> Result<KyGElements, Error> {
     let lines = data
@@ -130,10 +139,10 @@ pub fn parse(data: &str) -> Result<KyGElements, Error> {
                     let (nombre, a, u, orienta, ff) = (vv[1], vv[2], vv[3], vv[4], vv[5]);
                     let (ggln, unknown1, unknown2, infcoeff_100, cons) = if vv.len() > 10 {
                         (
-                            Some(vv[6].replace(',', ".").parse()?),
-                            Some(vv[7].replace(',', ".").parse()?),
-                            Some(vv[8].replace(',', ".").parse()?),
-                            Some(vv[9].replace(',', ".").parse()?),
+                            Some(parse_num(vv[6])?),
+                            Some(parse_num(vv[7])?),
+                            Some(parse_num(vv[8])?),
+                            Some(parse_num(vv[9])?),
                             Some(vv[10].to_string()),
                         )
                     } else {
@@ -146,9 +155,9 @@ pub fn parse(data: &str) -> Result<KyGElements, Error> {
                             orientation: orienta.replace('O', "W").to_string(),
                             azimuth_n: 0.0, // Valor temporal, se completa más abajo
                             wall: String::default(),
-                            a: a.replace(',', ".").parse()?,
-                            u: u.replace(',', ".").parse()?,
-                            ff: ff.replace(',', ".").parse::<f32>()? / 100.0_f32,
+                            a: parse_num(a)?,
+                            u: parse_num(u)?,
+                            ff: parse_num(ff)? / 100.0_f32,
                             fshobst: 0.0, // Valor temporal, se completa más abajo
                             ggln,
                             unknown1,
@@ -179,9 +188,9 @@ pub fn parse(data: &str) -> Result<KyGElements, Error> {
                         nombre.to_string(),
                         Wall {
                             name: nombre.to_string(),
-                            a: a.replace(',', ".").parse()?,
-                            u: u.replace(',', ".").parse()?,
-                            btrx: btrx.replace(',', ".").parse()?,
+                            a: parse_num(a)?,
+                            u: parse_num(u)?,
+                            btrx: parse_num(btrx)?,
                             wtype,
                             orientation,
                             cons,
@@ -199,8 +208,8 @@ pub fn parse(data: &str) -> Result<KyGElements, Error> {
                         nombre.to_string(),
                         ThermalBridge {
                             name: nombre.to_string(),
-                            l: l.replace(',', ".").parse()?,
-                            psi: psi.replace(',', ".").parse()?,
+                            l: parse_num(l)?,
+                            psi: parse_num(psi)?,
                             sisdim,
                         },
                     );
@@ -216,15 +225,16 @@ pub fn parse(data: &str) -> Result<KyGElements, Error> {
             }
             let (name, azimuth_n, _a, htot, _h1, _h2, h3, _ganancia) = (
                 vv[0].trim_matches('"').to_string(), // name
-                vv[1].parse::<f32>()?, // azimuth (grados respecto al norte, N=0, NE=45, E=90)
-                vv[2].parse::<f32>()?, // a - area (m2)
-                vv[3].parse::<f32>()?, // htot - radiación solar global en el plano del vidrio sin obstáculos (Wh/m2)
-                vv[4].parse::<f32>()?, // _h1 - radiación solar global en el plano del vidrio tras obstáculos remotos (Wh/m2)
-                vv[5].parse::<f32>()?, // _h2 - radiación solar global en el plano del vidrio tras obstáculos de fachada (Wh/m2)
-                vv[6].parse::<f32>()?, // h3 - radiación solar global en el plano del vidrio tras sombras por lamas (Wh/m2)
-                vv[7].parse::<f32>()?, // _ganancia solar a través de este hueco (Wh/m2)
+                parse_num(vv[1])?, // azimuth (grados respecto al norte, N=0, NE=45, E=90)
+                parse_num(vv[2])?, // a - area (m2)
+                parse_num(vv[3])?, // htot - radiación solar global en el plano del vidrio sin obstáculos (Wh/m2)
+                parse_num(vv[4])?, // _h1 - radiación solar global en el plano del vidrio tras obstáculos remotos (Wh/m2)
+                parse_num(vv[5])?, // _h2 - radiación solar global en el plano del vidrio tras obstáculos de fachada (Wh/m2)
+                parse_num(vv[6])?, // h3 - radiación solar global en el plano del vidrio tras sombras por lamas (Wh/m2)
+                parse_num(vv[7])?, // _ganancia solar a través de este hueco (Wh/m2)
             );
-            let fshobst = h3 / htot;
+            // Sin radiación incidente no hay obstrucción que medir
+            let fshobst = if htot.abs() > f32::EPSILON { h3 / htot } else { 1.0 };
             qsolvalues.insert(name, (azimuth_n, fshobst));
         }
         // K global
